@@ -94,9 +94,7 @@ func handleConnect(c *Client, e Event) {
 
 	time.Sleep(2 * time.Second)
 
-	c.mu.RLock()
-	server := c.server()
-	c.mu.RUnlock()
+	server := c.Server()
 	c.RunHandlers(&Event{Command: CONNECTED, Params: []string{server}})
 }
 
